@@ -59,7 +59,7 @@ def main():
     d = os.path.abspath(sys.argv[1])
     prop = sys.argv[2]
     checks = [prop]
-    budget = "75"
+    budget = None  # None: the check runs with its registered budget
     confirm = True
     regtest = True
     seeds = ["1"]
@@ -140,7 +140,9 @@ def main():
             for seed in seeds:
                 outdir = "/tmp/mw-out/%s-%s-%s" % (tag, c, seed)
                 shutil.rmtree(outdir, ignore_errors=True)
-                env = dict(os.environ, VERIF_REPO=wt, VERIF_OUT_DIR=outdir, VERIF_BUDGET=budget, VERIF_SEED=seed)
+                env = dict(os.environ, VERIF_REPO=wt, VERIF_OUT_DIR=outdir, VERIF_SEED=seed)
+                if budget:
+                    env["VERIF_BUDGET"] = budget
                 t0 = time.time()
                 rc, o = sh(["/verif/check", c, "quick"], cwd="/verif", env=env, timeout=7200)
                 viol = re.findall(r"^VIOLATION .*$\n^  class=(\S+)", o, re.M)
